@@ -2,6 +2,7 @@ SPECIFICATION Spec
 CONSTANTS
   AllFormats = TRUE
   Routers = {"incoming", "peer"}
+  Lengths = {8, 32, 33, 64, 100}
 INVARIANTS TypeOK DataOnlyWithToken ErrorOtherwise InaccessibleWithoutToken Uniform UsableWithToken
 ACTION_CONSTRAINT Dump
 VIEW View
